@@ -139,7 +139,14 @@ fn run_pass(scn: &dyn Scenario, tier: &str, variants: &[Value], bounds: &[usize]
         let _ = std::fs::remove_file(&f);
         match text.and_then(|t| serde_json::from_str::<Value>(&t).ok()) {
             Some(v) => Ok(v),
-            None => Err(st.map(|o| format!("{:?} {}", o.status, String::from_utf8_lossy(&o.stderr).chars().rev().take(400).collect::<String>().chars().rev().collect::<String>())).unwrap_or_else(|e| e.to_string())),
+            None => Err(st
+                .map(|o| {
+                    let err = String::from_utf8_lossy(&o.stderr).to_string();
+                    // the Rust runtime's own abort messages come first, before a backtrace
+                    let abort = err.lines().find(|l| l.starts_with("memory allocation of") || l.contains("has overflowed its stack")).unwrap_or("").to_string();
+                    format!("{:?} {} {}", o.status, abort, err.chars().rev().take(400).collect::<String>().chars().rev().collect::<String>())
+                })
+                .unwrap_or_else(|e| e.to_string())),
         }
     });
     let _ = std::fs::remove_dir_all(&dir);
@@ -190,6 +197,17 @@ fn supervisor(argv: &[String]) {
         let v = match r {
             Ok(v) => v,
             Err(e) => {
+                // a worker killed by the Rust runtime's own abort (allocation failure, stack overflow)
+                // while it executes the library is a verdict on the library - "aborts the process" -
+                // not a machinery problem; anything else is
+                if e.contains("memory allocation of") || e.contains("has overflowed its stack") {
+                    part.violation(
+                        "process:aborted",
+                        format!("variant {} {}: the process running the connection was aborted: {}", vi, variants[vi], e.chars().rev().take(200).collect::<String>().chars().rev().collect::<String>()),
+                        json!({"engine":"simx","scenario":scn.name(),"params":variants[vi],"decisions":[]}),
+                    );
+                    return;
+                }
                 machinery.push(format!("worker variant {} shard {} produced no result: {}", vi, s, e));
                 return;
             }
@@ -389,6 +407,8 @@ fn url_slice(argv: &[String]) {
         ("u:p@", "/v%20w", "auth_mechanism=external", "EXTERNAL", "", "v w", 60, 2047),
         ("", "/x", "auth_mechanism=external&heartbeat=9", "EXTERNAL", "", "x", 9, 2047),
         ("%75ser:p%2Fw@", "", "connection_timeout=5000&heartbeat=61", "PLAIN", "\u{0}user\u{0}p/w", "/", 60, 2047),
+        ("u:p@", "/%2Fprod", "", "PLAIN", "\u{0}u\u{0}p", "/prod", 60, 2047),
+        ("", "/%2f%2f", "heartbeat=7", "PLAIN", "\u{0}guest\u{0}guest", "//", 7, 2047),
     ];
     // host forms: an IPv4 literal, a name (resolved, possibly to several addresses that are
     // tried in turn) and a bracketed IPv6 literal (skipped where the sandbox has no ::1)
